@@ -355,6 +355,49 @@ _pp("C26", "pipe_serde", "4.11", "the whole pipeline run a second time with ever
     _gen_layout + "Non-trivial: every diagram.", "Serialize;Deserialize stage guards.", ["an external plugin process is not spawned; the wire functions are the ones exec.go/serve.go call"] + _lay_assume)
 
 
+# ---------------------------------------------------------------------------------- special layouts (C22 C23 C24)
+def corrupt_special(lines, pid):
+    for e in lines:
+        if e.get("ev") != "layout" or e.get("ok") != 1:
+            continue
+        objs = e["geom"]["objs"]
+        if pid == "C22":
+            for i, o in enumerate(objs):
+                if o["grid"] == 1:
+                    cells = [c for c in objs if c["parent"] == i + 1]
+                    if len(cells) >= 2:
+                        cells[1]["x"] += 17
+                        cells[1]["x2"] += 17
+                        return "second cell of a grid shifted 17 px"
+        if pid == "C23":
+            actors = [o for o in objs if o["isActor"] == 1]
+            if len(actors) >= 2:
+                actors[0]["x"], actors[1]["x"] = actors[1]["x"], actors[0]["x"]
+                actors[0]["x2"], actors[1]["x2"] = actors[1]["x2"], actors[0]["x2"]
+                return "first two actors swapped horizontally"
+        if pid == "C24":
+            for o in objs:
+                if o["near"].startswith("top") and o["parent"] == 0:
+                    o["y"] += 1000
+                    o["y2"] += 1000
+                    return "a near: top-* shape moved 1000 px down"
+    return None
+
+
+for _nm, _mode in [("pipe_grid", "grid"), ("pipe_seq", "sequence"), ("pipe_near", "near")]:
+    _pipe_family(_nm, _mode, "layout", 120, 1200, "dagre,elk")
+    FAMILIES[_nm]["corrupt"] = corrupt_special
+_pp("C22", "pipe_grid", "4.10", "Layout stage guard evaluated by TLC on the logged cell boxes: consecutive cells continue the row (column) one gap further or start the next one a gap below (right of) the previous, extent to extent; cells inside the container, disjoint, equal heights per row / widths per column when both counts are given",
+    "mode grid: one grid container with 0-30 cells (explicit sizes, labels, nested containers as cells), grid-rows and/or grid-columns in either order, grid-gap / vertical-gap / horizontal-gap in any combination, plus up to 2 ordinary objects; every 4th diagram with ELK; 1200 diagrams. Non-trivial: the diagram contains a grid.",
+    "Placement guard of the grid layout: the row/column split that layoutDynamic chose is not predicted but inferred from the logged boxes.", _lay_assume + ["fill direction: rows keyword first, or only grid-rows given, means row-directed (d2grid's documented rule)", "default gap 40"])
+_pp("C23", "pipe_seq", "4.10", "Layout stage guard evaluated by TLC on logged actor boxes and message routes: actors strictly left to right on one baseline in declaration order, messages top to bottom in declaration order, messages between different actors horizontal, message ends within their actor's horizontal extent",
+    "mode sequence: one sequence diagram with 1-8 actors, 0-30 messages incl. self messages, spans, notes and groups, plus up to 2 ordinary objects; 1200 diagrams. Non-trivial: the diagram contains a sequence diagram.",
+    "Order guard of the sequence layout.", _lay_assume + ["actors are recognised by the generator's naming convention (pN directly inside the sequence diagram)", "a message end is required to lie within its actor's box horizontally (lifeline or span), not at an exact x"])
+_pp("C24", "pipe_near", "4.10", "Layout stage guard evaluated by TLC: every top-level constant-near shape lies outside the main diagram's bounding box (shapes with outside labels/icons and connection routes) on the named side(s); centred (within the label padding, 6 px) when it is the only shape of its phase",
+    "mode near: 1-4 ordinary objects with containers and connections plus 1-8 shapes with constant near positions (containers, labelled shapes, all 8 constants, repeats); 1200 diagrams. Non-trivial: the diagram has a constant-near shape.",
+    "Placement guard of the near layout.", _lay_assume + ["main diagram = objects whose top-level ancestor has no constant near, with their outside labels/icons, and the routes among them", "with several near shapes of one phase the later ones are centred on a box the earlier ones extended: centring is only checked for a single shape per phase"])
+
+
 # ------------------------------------------------------------------------------- manifest data
 HOOK_COMMITS = ["9d004ebd4", "879b5d739"]
 
